@@ -424,7 +424,26 @@ def covered_forced(a, msg=""):
     return fid if mo == outs and mo != alone_results(a) else None
 
 
+# ---------------------------------------------------------------- shared parser instances, forced schedules
+from props import c14corners as K  # noqa: E402
+
+
+def impl_parser_threads(a):
+    msg = K.check_threads(a)
+    return {"ok": "as-alone"} if msg is None else {"err": msg}
+
+
+CORRS.append(
+    Corr("c19.parser_threads", K.gen_threads, impl_parser_threads, spec=lambda a: {"ok": "as-alone"},
+         classify=lambda a, o: a["calls"][0]["kind"] + ("|non-default-options" if a["cfg"] else "|default-options"),
+         describe="spec-level: two to four threads decode / parse (union, base-class and compound fields, unconvertible "
+                  "values, failing documents) through ONE DictDecoder / JsonParser / XmlParser and one hooked context "
+                  "under forced schedules (thread 0 parks inside its call at every access of the shared metadata cache); "
+                  "every call must return what it returns alone")
+)
+
 ORACLES = [
+    Oracle("parser-threads", K.gen_threads, K.check_threads),
     Oracle("forced-interleavings", gen_conc, check_forced, covered_forced, from_ops=("conc.run",)),
     Oracle("free-running", gen_free, check_free, covered_conc),
     Oracle("free-running-documents", gen_free_docs, check_free_docs),
